@@ -7,6 +7,8 @@ pub mod c04;
 pub mod c15;
 pub mod c05;
 pub mod c06;
+pub mod c07;
+pub mod c08;
 pub mod c09;
 pub mod c10;
 pub mod c11;
@@ -29,6 +31,8 @@ pub fn run(name: &str, ctx: &mut Ctx) -> bool {
         "c15" => c15::run(ctx),
         "c05" => c05::run(ctx),
         "c06" => c06::run(ctx),
+        "c07" => c07::run(ctx),
+        "c08" => c08::run(ctx),
         "c09" => c09::run(ctx),
         "c10" => c10::run(ctx),
         "c11" => c11::run(ctx),
